@@ -336,7 +336,7 @@ def leaf_kind(meta):
     return c["k"] if c else None
 
 
-HEADER_KEYS = ("version", "type", "count", "length", "padding")
+HEADER_KEYS = ("version", "type", "count", "subtype", "length", "padding")
 
 
 def base_key(k):
@@ -429,7 +429,7 @@ def project(pid, t, meta):
     if pid == "C12":
         if not (op == "parse" and meta.get("kind") == "packet"): return out
         for k, v in t.items():
-            if k in ("res", "variant", "data") or k.startswith(("typed.", "conv.", "conv_same.", "convo.", "convo_same.", "as.", "aso.")): out[k] = v
+            if k in ("res", "variant", "is_unknown", "data") or k.startswith(("typed.", "conv.", "conv_same.", "convo.", "convo_same.", "as.", "aso.")): out[k] = v
         return out
     if pid == "C13":
         if op != "pad": return out
